@@ -67,6 +67,52 @@ impl From<&'_ NoWitness> for WitnessOrHole {
     }
 }
 
+/// Renders a type using only the syntax that the type parser of the human-readable
+/// encoding accepts: `1`, `2`, `2^n` for n up to 512, `(A + B)` and `(A * B)`.
+///
+/// The `Display` implementation of [`types::Final`] is meant for people: it abbreviates
+/// `1 + A` as `A?` and prints words of any size as `2^n`, neither of which can be parsed.
+fn type_to_string(ty: &types::Final) -> String {
+    use crate::types::CompleteBound;
+
+    enum Item<'a> {
+        Type(&'a types::Final, bool),
+        Str(&'static str),
+    }
+
+    let mut ret = String::new();
+    let mut stack = vec![Item::Type(ty, false)];
+    while let Some(item) = stack.pop() {
+        let (ty, parenthesize) = match item {
+            Item::Str(s) => {
+                ret.push_str(s);
+                continue;
+            }
+            Item::Type(ty, parenthesize) => (ty, parenthesize),
+        };
+        match (ty.as_word(), ty.bound()) {
+            (_, CompleteBound::Unit) => ret.push('1'),
+            (Some(0), _) => ret.push('2'),
+            (Some(n), _) if n <= 9 => ret.push_str(&format!("2^{}", 1u32 << n)),
+            (_, CompleteBound::Sum(left, right)) | (_, CompleteBound::Product(left, right)) => {
+                let op = if matches!(ty.bound(), CompleteBound::Sum(..)) {
+                    " + "
+                } else {
+                    " * "
+                };
+                if parenthesize {
+                    ret.push('(');
+                    stack.push(Item::Str(")"));
+                }
+                stack.push(Item::Type(right, true));
+                stack.push(Item::Str(op));
+                stack.push(Item::Type(left, true));
+            }
+        }
+    }
+    ret
+}
+
 #[derive(Clone, Debug, PartialEq, Eq)]
 pub struct Forest {
     roots: HashMap<Arc<str>, Arc<NamedCommitNode>>,
@@ -155,7 +201,11 @@ impl Forest {
                 }
 
                 let arrow = node.arrow();
-                let arrow_str = format!(": {} -> {}", arrow.source, arrow.target).replace('×', "*"); // for human-readable encoding stick with ASCII
+                let arrow_str = format!(
+                    ": {} -> {}",
+                    type_to_string(&arrow.source),
+                    type_to_string(&arrow.target),
+                );
 
                 let print = Print {
                     cmr: node.cmr(),
